@@ -19,9 +19,10 @@
    statement for every sequence in which no operation meets one of the five guards
    (guard_of, evaluated on the state before the operation); every limit, including 0 and
    limits above the number of matching keys, is covered.  C02_guards_exact: inside every guard the
-   observation provably differs from the map's, so the guards exclude nothing but failing inputs; the
-   one region without such a proof is a limited clear that meets BOTH the trim guard and the order guard
-   (reported as prefix-trim; measured by the driver tag guard-agree-SLUG, see docs/audit/aud-trie.md). *)
+   observation provably differs from the map's, so the guards exclude nothing but failing inputs
+   (complete since round 4: the order guard of a limited clear is exact whether or not the trimmed
+   prefix matters — byte keys have an even number of nibbles, so the keys with the byte prefix come
+   before the keys that match the trimmed prefix only). *)
 From Common Require Import Bytes Outcome.
 From Trie Require Import Nibbles Node Encode Model Spec GoSpec SpecProofs.
 From C02 Require Import Model Guards Proofs.
@@ -111,7 +112,7 @@ Theorem C02_guards_exact : forall t m,
   (forall p, guard_trim m p = true -> trie_entries (trie_clear_prefix t p) <> bm_listing (bm_clear_prefix m p)) /\
   (forall p l, l <> 0%N -> guard_limit_order_go m p l = false -> guard_trim_limit m p l = true ->
      snd (trie_step repaired t (OpClearLimit p l)) <> snd (bm_step m (OpClearLimit p l))) /\
-  (forall p l, l <> 0%N -> guard_limit_order_go m p l = true -> guard_trim_limit m p l = false ->
+  (forall p l, l <> 0%N -> guard_limit_order_go m p l = true ->
      snd (trie_step repaired t (OpClearLimit p l)) <> snd (bm_step m (OpClearLimit p l))) /\
   (forall k, guard_get_exhausted t k = true -> trie_get t k <> bm_get m k) /\
   (forall k, guard_delete_exhausted t k = true ->
@@ -123,7 +124,7 @@ Proof.
   - intros p G. exact (guard_trim_exact_keys t m p R G).
   - intros p G. exact (guard_trim_exact_clear t m p R G).
   - intros p l Z Go Gt. exact (guard_trim_limit_exact t m p l R Z Go Gt).
-  - intros p l Z Go Gt. exact (guard_limit_order_exact t m p l R Z Go Gt).
+  - intros p l Z Go. exact (guard_limit_order_exact_all t m p l R Z Go).
   - intros k G. exact (guard_get_exact t m k R G).
   - intros k G. exact (guard_delete_exact t m k R G).
   - intros p limit G. exact (guard_limit_zero_exact t m p limit G).
